@@ -151,6 +151,40 @@ def multi_machine_case(runner, r, oc, reqs, pend, rounds, uml=False):
             oc.samples.append(dict(names=[m.get("name", m.get("diagram")) for m in models], backend=models[0]["backend"], files=names[:12], markers=len(placed), order=hist["order"]))
 
 
+def late_twin_case(runner, r, oc):
+    """a class diagram generated with namespace folders, user code written, then an element of the same name appears in
+    another package (<A>/<Name>.h existed, <B>/<Name>.h is new): the new files start without user code and nothing moves"""
+    import copy
+    import umlsynth
+    spec1 = umlsynth.rand_spec(r, relations=False, focus="twins")
+    spec0 = copy.deepcopy(spec1)
+    first = r.choice([0, 1])            # which of the two like-named elements is there from the start
+    if first == 0:
+        spec0["classes"] = spec0["classes"][:-1]
+    else:
+        del spec0["classes"][-2]
+    spec0["inherits"] = []
+    backend = r.choice(["uml", "uml", "umlcs"])
+    mk = lambda sp: dict(kind="uml", backend=backend, project=genlib.BLOB, diagram=sp["diagram"], ns_folders=True, dclspc="", synth=sp)
+    with scratch() as base:
+        outdir_arg, cwd = genlib.rand_outdir_spelling(r, base)
+        real = os.path.join(base, "out")
+        hist = dict(models=[mk(spec0), mk(spec1)], outdir=outdir_arg, cwd=cwd, order=[0, 1, 1])
+        counter = [0]
+        with e2e.in_cwd(cwd):
+            runner.generate(mk(spec0), outdir_arg)
+            placed = place_markers(r, real, counter, 1.0)
+            for step in (1, 2):
+                runner.generate(mk(spec1), outdir_arg)
+                msg = marker_violation(e2e.snapshot(real), placed)
+                if msg:
+                    oc.violations.append(dict(what="after a like-named element appeared in another package: " + msg, history=hist))
+                    return
+                placed.update(place_markers(r, real, counter, 0.5))
+        oc.stat("late_twin_histories")
+        oc.case(("late-twin", json.dumps(hist, sort_keys=True, default=str), len(placed)), nontrivial=bool(placed))
+
+
 def synthetic_pass_case(r, oc, reqs, pend, idx):
     """CGenerator.preserve_usercode_in_files + createoutput on synthetic code models whose keys
     are related as suffix / prefix / substring / nested folder, vs Model.regen"""
@@ -221,6 +255,10 @@ def run(tier):
         if oc.violations:
             break
         multi_machine_case(runner, r, oc, reqs, pend, r.choice([1, 2, 3]), uml=True)
+    for i in range(40 if thorough else 8):
+        if oc.violations:
+            break
+        late_twin_case(runner, r, oc)
     for i in range(1500 if thorough else 200):
         synthetic_pass_case(r, oc, reqs, pend, i)
     c01.settle(oc, reqs, pend)
